@@ -152,11 +152,12 @@ fn mk(_cfg: &RunCfg) -> Box<dyn Oracle> {
 
 fn conf(g: &mut Gen) {
     super::byz::install(g);
+    g.oversize_data = true;
 }
 
 pub fn spec() -> CheckSpec {
     let mut guards = BTreeSet::new();
-    for g in ["capture_logs", "h_garbage", "h_outer", "h_commit", "h_proposal", "h_welcome", "h_rumor", "h_rewrap"] {
+    for g in ["capture_logs", "h_garbage", "h_outer", "h_commit", "h_proposal", "h_welcome", "h_rumor", "h_rewrap", "h_keypackage"] {
         guards.insert(g.to_string());
     }
     let base = Profile { guards, hostile: 4, second_group: true, allow_restart: true, ..Default::default() };
